@@ -15,7 +15,8 @@ import (
 //   (a) every return exit of a teardown function has executed that unsubscribe, unless the state
 //       knows that ownership of the client id was lost to a successor: the connection registered in
 //       Broker.clients under the id was looked up, is present and is not the receiver (the identity
-//       guard decided by R-C16-3), or the receiver's session is known nil. Any other state-dependent
+//       guard decided by R-C16-3), the receiver carries the supersession mark that the takeover branch
+//       of handleConn writes, or the receiver's session is known nil. Any other state-dependent
 //       way around the unsubscribe (status flags, counters, ...) leaves the filters of a gone client
 //       in the trie: residue that is routed to whoever connects under the id next.
 //   (b) the connection's reader — the Client method that calls packets.ReadPacket — runs a teardown
@@ -32,6 +33,7 @@ func c14Teardown(e *c14env) {
 	unsubName := "(*" + mq + ".TopicManager).unsubscribe"
 	allSubs := "(*" + mq + ".Session).allSubscribes"
 	teardowns := map[*types.Func]bool{}
+	e16 := c16NewEnv(c)
 
 	e.decls(func(f *flow.Func, fd *ast.FuncDecl) {
 		recv := c14recvObj(f, fd)
@@ -110,10 +112,27 @@ func c14Teardown(e *c14env) {
 		if res == nil {
 			return
 		}
+		// the supersession mark written by the takeover branch of handleConn (read by role, see c16_supersede.go)
+		var sup []c16SupFact
+		if e16 != nil {
+			sup = e16.supFacts(f, func(x ast.Expr) bool {
+				for _, l := range lookups {
+					if o := c14obj(f, x); o != nil && o == c14obj(f, l.val) {
+						return true
+					}
+				}
+				return false
+			})
+		}
 		lost := func(st *flow.State) bool {
 			for _, l := range lookups {
 				if recvID != nil && st.Is(f.VarKey(l.ok), flow.True) && st.Is(f.EqKey(l.val, recvID), flow.False) {
 					return true
+				}
+			}
+			for _, sf := range sup {
+				if st.Is(sf.key, sf.supWhen) {
+					return true // the connection is known to have been taken over
 				}
 			}
 			return sessExpr != nil && st.Is(f.NilKey(sessExpr), flow.True)
